@@ -239,3 +239,14 @@ func (w *FailWriter) Write(p []byte) (int, error) {
 	}
 	return room, ErrInjected
 }
+
+// RichFailWriter is a FailWriter that also offers the optional writer interfaces (io.ByteWriter, io.StringWriter), as
+// bufio.Writer, bytes.Buffer or strings.Builder do: code that prefers them meets the same fault plan through them.
+type RichFailWriter struct{ FailWriter }
+
+func (w *RichFailWriter) WriteByte(c byte) error {
+	_, err := w.Write([]byte{c})
+	return err
+}
+
+func (w *RichFailWriter) WriteString(s string) (int, error) { return w.Write([]byte(s)) }
